@@ -39,6 +39,10 @@ def _strval(node, facts, model):
         return facts.strs[k]
     if isinstance(node, ast.Constant) and isinstance(node.value, (str, int)) and not isinstance(node.value, bool):
         return node.value
+    if isinstance(node, ast.Call) and isinstance(node.func, ast.Attribute) and node.func.attr in ("lower", "upper", "strip") and not node.args:
+        inner = _strval(node.func.value, facts, model)
+        if isinstance(inner, str):
+            return getattr(inner, node.func.attr)()
     if isinstance(node, ast.Name) and model is not None:
         try:
             v = model.const(node)
@@ -78,6 +82,11 @@ def decide(test, facts, model=None):
                     if k in facts.zeros:
                         v = facts.zeros[k]
                         return v if isinstance(op, ast.Eq) else not v
+            raise Unknown(src)
+        if isinstance(op, (ast.In, ast.NotIn)) and not isinstance(r, (ast.Tuple, ast.List, ast.Set)):
+            ls, rs = _strval(l, facts, model), _strval(r, facts, model)
+            if isinstance(ls, str) and isinstance(rs, str):
+                return (ls in rs) if isinstance(op, ast.In) else (ls not in rs)
             raise Unknown(src)
         if isinstance(op, (ast.In, ast.NotIn)) and isinstance(r, (ast.Tuple, ast.List, ast.Set)):
             ls = _strval(l, facts, model)
